@@ -140,6 +140,11 @@ struct Tally {
     fired: Vec<u64>,
     /// frames with an altered operand (current-row stack cell): liveness tally only
     operand_frames: u64,
+    /// third fault model: forged u32 frames, and how many of them left the b_range constraint at zero
+    u32_forged: u64,
+    u32_forged_aux_zero: u64,
+    /// third fault model: per (operation, class) the main transition constraints that rejected a forged frame
+    u32_rejected_by: BTreeMap<String, std::collections::BTreeSet<usize>>,
 }
 
 impl Tally {
@@ -577,6 +582,7 @@ fn sweep(ctx: &Ctx, case: &ProgCase, challenges: &[Q], tally: &Mutex<Tally>, dum
                 }
                 mf.current_mut()[S0 + j] = old;
             }
+            u32_consistent_deviations(ctx, case, &air, &mut mf, &mut af, &pv, &rand, challenges[0], &x, &mut local, &cj, dump);
         }
     }
     hasher_cycle_deviations(ctx, case, &air, main, &periodic, n, &mut local, &cj, dump);
@@ -584,6 +590,11 @@ fn sweep(ctx: &Ctx, case: &ProgCase, challenges: &[Q], tally: &Mutex<Tally>, dum
     t.frames += local.frames;
     t.rows += local.rows;
     t.operand_frames += local.operand_frames;
+    t.u32_forged += local.u32_forged;
+    t.u32_forged_aux_zero += local.u32_forged_aux_zero;
+    for (k, v) in &local.u32_rejected_by {
+        t.u32_rejected_by.entry(k.clone()).or_default().extend(v.iter().cloned());
+    }
     if t.fired.len() < local.fired.len() {
         t.fired.resize(local.fired.len(), 0);
     }
@@ -594,6 +605,178 @@ fn sweep(ctx: &Ctx, case: &ProgCase, challenges: &[Q], tally: &Mutex<Tally>, dum
         let e = t.per.entry(k).or_insert([0; 4]);
         for j in 0..4 {
             e[j] += v[j];
+        }
+    }
+}
+
+/// Third fault model, for the u32 arithmetic operations: a WRONG RESULT WITH CONSISTENT LIMBS. The single-cell
+/// sweep can never produce a frame in which the result cells, the helper limbs and the range-checker bus agree
+/// with each other, so it is blind to a missing rule that only such a frame can reach (the binary check of the
+/// U32SUB borrow, the element-validity check of U32SPLIT / U32MUL / U32MADD, the bounds on quotient and
+/// remainder of U32DIV). For every row of a u32 arithmetic operation with u32 operands this enumerates
+/// alternative assignments of (s0', s1', h0..h3) in which EVERY limb is a 16-bit value (so the range checker
+/// can serve the lookups) and which satisfy the documented limb-aggregation equations of u32_ops.md modulo p,
+/// but whose results differ from the honest ones; b_range' is recomputed for the new limbs with the LogUp
+/// equation of u32_ops.md ("Range checks"), so the forged frame is consistent in everything except the
+/// arithmetic. At least one main or auxiliary transition constraint must be non-zero on it.
+///   U32SUB: differences c'' from a boundary set around the honest one, borrow'' = (s0 + c'' - s1) / 2^32 (never binary)
+///   U32SPLIT / U32MUL / U32MADD: the second 64-bit spelling v + p of the value v (exists iff v < 2^32 - 1):
+///           hi'' = 2^32 - 1, lo'' = v + 1, with m in {honest, 0, 1}
+///   U32DIV: all (q'', r'') with q'' = s1 - x, r'' = s0 - 1 - y, 0 <= x, y < 2^32 and s0 q'' + r'' = s1 (mod p):
+///           for each wrap count k in {-1, 0, 1} the solutions form an interval of x; its two first and two
+///           last members and the honest neighbours are taken
+#[allow(clippy::too_many_arguments)]
+fn u32_consistent_deviations(
+    ctx: &Ctx,
+    case: &ProgCase,
+    air: &air::ProcessorAir,
+    mf: &mut EvaluationFrame<Felt>,
+    af: &mut EvaluationFrame<Q>,
+    pv: &[Felt],
+    rand: &AuxTraceRandElements<Q>,
+    alpha: Q,
+    x: &RowCtx,
+    local: &mut Tally,
+    cj: &dyn Fn() -> Value,
+    dump: bool,
+) {
+    let name = op_name(x.opcode);
+    if !matches!(name, "U32SUB" | "U32SPLIT" | "U32MUL" | "U32MADD" | "U32DIV") {
+        return;
+    }
+    const M32: u64 = 0xffff_ffff;
+    let s = |k: usize| x.cur[S0 + k];
+    let is_u32 = |v: Felt| v.as_int() <= M32;
+    let hon: [u64; 5] = core::array::from_fn(|k| x.cur[HELPER0 + k].as_int());
+    let limbs = |lo: u64, hi: u64| [lo & 0xffff, lo >> 16, hi & 0xffff, hi >> 16];
+    // (class, s0'', s1'', limbs, candidates for m)
+    let mut alts: Vec<(&'static str, Felt, Felt, [u64; 4], Vec<u64>)> = vec![];
+    match name {
+        "U32SUB" if is_u32(s(0)) && is_u32(s(1)) => {
+            let honest = x.next[S0 + 1].as_int();
+            let mut cands = std::collections::BTreeSet::new();
+            for c in [honest.wrapping_add(1), honest.wrapping_sub(1), honest.wrapping_add(2), honest.wrapping_sub(2), 0, 1, M32, 1 << 31, honest ^ 0x1_0000, honest ^ 0x8000_0000] {
+                if (c & M32) != honest {
+                    cands.insert(c & M32);
+                }
+            }
+            let inv32 = Felt::new(1 << 32).inv();
+            for c in cands {
+                // u32 subtraction: s1' = s1 - s0 + 2^32 * borrow (u32_ops.md prints the borrow term with the opposite
+                // sign, which not even an honest row with a borrow satisfies)
+                let borrow = (s(0) + Felt::new(c) - s(1)) * inv32;
+                alts.push(("wrong_difference_with_a_non_binary_borrow", borrow, Felt::new(c), [c & 0xffff, c >> 16, hon[2], hon[3]], vec![hon[4]]));
+            }
+        }
+        "U32SPLIT" | "U32MUL" | "U32MADD" => {
+            let ok = match name {
+                "U32SPLIT" => true,
+                "U32MUL" => is_u32(s(0)) && is_u32(s(1)),
+                _ => is_u32(s(0)) && is_u32(s(1)) && is_u32(s(2)),
+            };
+            let v = match name {
+                "U32SPLIT" => s(0),
+                "U32MUL" => s(0) * s(1),
+                _ => s(0) * s(1) + s(2),
+            };
+            if ok && v.as_int() < M32 {
+                let lo = v.as_int() + 1;
+                alts.push(("second_spelling_v_plus_p_of_the_value", Felt::new(M32), Felt::new(lo), limbs(lo, M32), vec![hon[4], 0, 1]));
+            }
+        }
+        "U32DIV" if is_u32(s(0)) && is_u32(s(1)) && s(0).as_int() != 0 => {
+            let (a, b) = (s(1).as_int() as i128, s(0).as_int() as i128);
+            let (hq, hr) = (x.next[S0 + 1], x.next[S0]);
+            let xh = a - hq.as_int() as i128;
+            for k in [-1i128, 0, 1] {
+                let c = b * a + b - 1 - a - k * (P as i128);
+                let x_lo = (-((-(c - M32 as i128)).div_euclid(b))).max(0);
+                let x_hi = c.div_euclid(b).min(M32 as i128);
+                if x_lo > x_hi {
+                    continue;
+                }
+                let mut xs = std::collections::BTreeSet::new();
+                for cand in [x_lo, x_lo + 1, x_hi - 1, x_hi, xh - 2, xh - 1, xh + 1, xh + 2] {
+                    if cand >= x_lo && cand <= x_hi {
+                        xs.insert(cand);
+                    }
+                }
+                for xv in xs {
+                    let y = c - b * xv;
+                    assert!((0..=M32 as i128).contains(&y), "harness: U32DIV solution interval");
+                    let q = s(1) - Felt::new(xv as u64);
+                    let r = s(0) - Felt::ONE - Felt::new(y as u64);
+                    assert!(s(0) * q + r == s(1), "harness: U32DIV alternative does not satisfy the division equation");
+                    if q == hq && r == hr {
+                        continue;
+                    }
+                    let class = if k != 0 {
+                        "quotient_and_remainder_wrap_the_modulus"
+                    } else if r.as_int() > M32 {
+                        "quotient_too_large_with_a_negative_remainder"
+                    } else {
+                        "other_u32_quotient_and_remainder"
+                    };
+                    alts.push((class, r, q, limbs(xv as u64, y as u64), vec![hon[4]]));
+                }
+            }
+        }
+        _ => {}
+    }
+    if alts.is_empty() {
+        return;
+    }
+    let nmain = air.context().num_main_transition_constraints();
+    let naux = air.context().num_aux_transition_constraints();
+    let mut me = vec![Felt::ZERO; nmain];
+    let mut ae = vec![Q::ZERO; naux];
+    let save_next: Vec<Felt> = mf.next().to_vec();
+    let save_cur: Vec<Felt> = mf.current().to_vec();
+    let save_b = af.next()[AUX_B_RANGE];
+    let term = |h: u64| (alpha - Q::from(Felt::new(h))).inv();
+    for (class, s0n, s1n, l, ms) in alts {
+        for m in ms {
+            mf.next_mut()[S0] = s0n;
+            mf.next_mut()[S0 + 1] = s1n;
+            let mut b_new = save_b;
+            for k in 0..4 {
+                mf.current_mut()[HELPER0 + k] = Felt::new(l[k]);
+                b_new = b_new + term(hon[k]) - term(l[k]);
+            }
+            mf.current_mut()[HELPER0 + 4] = Felt::new(m);
+            af.next_mut()[AUX_B_RANGE] = b_new;
+            me.iter_mut().for_each(|v| *v = Felt::ZERO);
+            air.evaluate_transition(mf, pv, &mut me);
+            local.note_fired(&me);
+            ae.iter_mut().for_each(|v| *v = Q::ZERO);
+            air.evaluate_aux_transition(mf, af, pv, rand, &mut ae);
+            let aux_zero = ae.iter().all(|v| *v == Q::ZERO);
+            let rejected = me.iter().any(|v| *v != Felt::ZERO) || !aux_zero;
+            local.u32_forged += 1;
+            local.u32_forged_aux_zero += aux_zero as u64;
+            local.frames += 1;
+            let e = local.per.entry((format!("{name} (result, limbs and b_range' forged consistently)"), class.to_string())).or_insert([0; 4]);
+            e[0] += 1;
+            if rejected {
+                e[1] += 1;
+                let by = local.u32_rejected_by.entry(format!("{name} {class}")).or_default();
+                by.extend(me.iter().enumerate().filter(|(_, v)| **v != Felt::ZERO).map(|(k, _)| k));
+            } else {
+                e[3] += 1;
+                if !dump {
+                    ctx.fail(
+                        json!({"kind": "consistent_deviation_not_rejected", "op": name, "cell": class}),
+                        format!(
+                            "{} row {}: {name} on (s0, s1, s2) = ({}, {}, {}) with the results forged to (s0', s1') = ({}, {}), limbs h0..h3 = {:?} (all 16-bit), m = {m} and b_range' recomputed for these limbs: no main or auxiliary transition constraint fires",
+                            case.name, x.row, s(0).as_int(), s(1).as_int(), s(2).as_int(), s0n.as_int(), s1n.as_int(), l
+                        ),
+                        json!({"prog": cj(), "row": x.row, "cell": class, "model": "u32_consistent"}),
+                    );
+                }
+            }
+            mf.next_mut().copy_from_slice(&save_next);
+            mf.current_mut().copy_from_slice(&save_cur);
+            af.next_mut()[AUX_B_RANGE] = save_b;
         }
     }
 }
@@ -729,6 +912,36 @@ fn bare_ops() -> Vec<ProgCase> {
     v
 }
 
+/// u32 arithmetic on operands that give the third fault model something to forge: values below 2^32 - 1 (a second
+/// 64-bit spelling exists), quotients that can be raised, differences on both sides of zero, limb boundaries
+fn u32_operand_cases() -> Vec<ProgCase> {
+    const M: u64 = 0xffff_ffff;
+    let mut v = vec![];
+    let mut add = |op: &str, top: Vec<u64>| {
+        for depth in [16usize, 18] {
+            let mut stack = top.clone();
+            stack.extend((top.len()..depth).map(|i| 5 + i as u64));
+            v.push(ProgCase { name: format!("u32ops/{op}/{:?}/in{depth}", top), src: format!("begin {op} end"), kernel: None, stack, advice: vec![], merkle_leaves: vec![], tags: vec![] });
+        }
+    };
+    for (a, b) in [(7, 2), (M, 2), (M, M), (100, 7), (5, M), (1 << 31, 3), (6, 3), (0, 5), (M, M - 1), (M, 1), (0x1_0000, 0xffff)] {
+        add("u32divmod", vec![b, a]);
+    }
+    for (a, b) in [(5, 3), (3, 5), (0, 0), (0, 1), (M, 0), (0, M), (0x1_0000, 1), (M, M)] {
+        add("u32overflowing_sub", vec![b, a]);
+    }
+    for (a, b) in [(3, 5), (0xffff, 0x1_0001), (0xfffe, 0x1_0001), (M, M), (0, 7), (1, M - 1), (1, M)] {
+        add("u32overflowing_mul", vec![b, a]);
+    }
+    for (a, b, c) in [(3, 5, 7), (0, 0, M - 1), (0, 0, M), (M, M, M), (1, M - 2, 1)] {
+        add("u32overflowing_madd", vec![b, a, c]);
+    }
+    for a in [0, 1, 0xffff, 0x1_0000, M - 1, M, 1 << 32, P - 1, (M << 32) - 1] {
+        add("u32split", vec![a]);
+    }
+    v
+}
+
 pub fn family(ctx: &Ctx) -> Vec<ProgCase> {
     let all = progs::p1(false);
     let mut v: Vec<ProgCase> = all
@@ -743,6 +956,7 @@ pub fn family(ctx: &Ctx) -> Vec<ProgCase> {
         .collect();
     v.extend(progs::shapes().into_iter().filter(|c| ctx.tier == mcx::Tier::Thorough || c.name.starts_with("deep_out") || c.name.starts_with("memctx") || c.name.ends_with("/8") || c.name.ends_with("/30") || c.name.ends_with("/20")));
     v.extend(bare_ops());
+    v.extend(u32_operand_cases());
     v
 }
 
@@ -811,15 +1025,18 @@ pub fn run(ctx: &Ctx, replay: Option<&Value>) -> i32 {
         "(op, cell) pairs only ever spec_free": pairs_free_only,
         "per (op, cell)": table,
         "operand-altering frames (liveness tally only)": t.operand_frames,
+        "third fault model (u32 results, limbs and b_range' forged consistently): frames": t.u32_forged,
+        "third fault model: main transition constraints that rejected the forged frames, per class (a class aimed at one rule should be rejected by that rule alone)": t.u32_rejected_by.iter().map(|(k, v)| (k.clone(), v.iter().cloned().collect::<Vec<_>>())).collect::<BTreeMap<_, _>>(),
+        "third fault model: frames on which the b_range constraint stayed zero (expected: all, the LogUp update is an identity in the limbs)": t.u32_forged_aux_zero,
         "main transition constraints": t.fired.len(),
         "main transition constraints that fired on at least one mutated frame": t.fired.iter().filter(|n| **n > 0).count(),
         "main transition constraints that never fired": never_fired,
         "least often fired constraints (index, frames)": least_fired,
         "exhaustive": true,
-        "bounds": "every row pair i < n-2 of every trace of the family x candidate cells x 8 deltas, one cell at a time (deviation bound 1)",
+        "bounds": "every row pair i < n-2 of every trace of the family x candidate cells x 8 deltas, one cell at a time (deviation bound 1); plus two models of consistent multi-cell deviations: hash-cycle starts with recomputed rounds, and u32 results with 16-bit limbs and b_range' forged consistently (boundary members of every solution interval)",
     });
     ctx.finish("fault_enumeration", cov, &[
         "a mutation the AIR accepts is only a violation if docs/src/design does not leave that cell free for that operation (function spec_free cites the reason per case)",
-        "single-cell deviations only; I/O, crypto and FRI operations and the decoder columns are in scope only for their documented stack-shift effect",
+        "single-cell deviations, plus the two stated families of consistent multi-cell deviations; I/O, crypto and FRI operations and the decoder columns are in scope only for their documented stack-shift effect",
     ])
 }
